@@ -277,8 +277,8 @@ def check_C16(args):
                 if not c["in_database_code"] and "zenodb" not in c.get("stderr_tail", ""):
                     raise InfraError("zvrobust crashed outside the database in %s: %s\n%s" % (sc["scn"], c["panic"], c["stderr_tail"]))
                 what = describe(culprit) if culprit else "?"
-                if known_gap and "memory" in c["panic"] and "Sequence.UpdateValue" in c.get("stderr_full", c.get("stderr_tail", "")) and \
-                        any(st["op"] == "payload" and st["class"] in GAP for st in sc["steps"]):
+                # (the goroutine that runs out of memory need not be the one that allocates the gap)
+                if known_gap and "memory" in c["panic"] and any(st["op"] == "payload" and st["class"] in GAP for st in sc["steps"]):
                     V.known_finding(known_gap)
                     continue
                 key = "crash:" + c["panic"][:60]
